@@ -57,6 +57,9 @@ class UnionDomain(Domain):
     def bounding_box(self, params=Points.empty(), device="cpu"):
         bounds_a = self.domain_a.bounding_box(params, device=device)
         bounds_b = self.domain_b.bounding_box(params, device=device)
+        # operands may return one box per parameter row
+        bounds_a = self._common_bounding_box(bounds_a)
+        bounds_b = self._common_bounding_box(bounds_b)
         bounds = []
         for i in range(self.space.dim):
             bounds.append(min([bounds_a[2 * i], bounds_b[2 * i]]))
